@@ -13,6 +13,8 @@ def run(res, tier, seed):
     exe = vlib.build_harness('h_taskpool', ['sched/h_taskpool.cpp'])
     for mod, cfg in [('Mailbox', 'Mailbox_2.cfg'), ('MCw', 'WaitTree_5.cfg'), ('MCp', 'PoolState_2x2.cfg')] + ([('MCTaskPool', 'TaskPool_s2.cfg')] if thorough else []) + [('MCTaskPoolIso', 'TaskPoolIso_i2.cfg')]:
         vlib.model_check(res, SD, mod, cfg, deadlock=False, timeout=1500)
+    # PoolState is instantiated with facts observed on the running code: a publisher aborts a clear transaction in flight, and an aborted transaction fails
+    schedlib.publish_fact_check(res, vlib.build_harness('h_wake', ['sync/h_wake.cpp']), ('enqueue_aborts_clear', 'clear_checked'))
     drift = 0; ec = et = 0
     # (model, cfg, owner program, steals per thief, isolation tags of the tasks / of the thieves)
     replays = [('MCTaskPool', 'TaskPool_s1.cfg', '1,2,-1,3,-1,-1', '1', None), ('MCTaskPool', 'TaskPool_s3.cfg', '1,2,3,-1,-1', '1', None),      # s3: the third spawn relocates the pool (prepare_task_pool) while thieves are around
